@@ -26,7 +26,9 @@ Inductive pname :=
 | PSegLogCreated | PSplitCreated | PEpochsAssigned | PLogWritten | PIndexWritten
 | PTailDeleted | PTruncCopy | PTruncReplaced
 | PReplClosed | PReplLogRenamed | PReplIdxRenamed
-| PDelLogRemoved | PCleanDeleting | PCompactCopy | PCleanCleaned.
+| PDelLogRemoved | PCleanDeleting | PCompactCopy | PCleanCleaned
+(* inside commitlog.New (Log/DiskRecover.v) *)
+| POrphanRemoved | PRebuildRemoved | PRebuildCreated | PRebuildEntry | PEpochsTrimmed.
 
 Record variant := mkV { v_rebuild : bool; v_epfirst : bool; v_fresh : bool }.
 Definition fixed : variant := mkV true true true.
